@@ -8,49 +8,61 @@ for which request), all wires (request log, frames under way, closed or not,
 any write budget) and all call objects unless a hypothesis says otherwise.
 -/
 import VarlinkVerif.Lemmas.Client
+import VarlinkVerif.Lemmas.ClientThreads
 
 namespace VV
 open Client
 
 /-! ### outcome -/
 
-/-- **C07 (outcome, success)**: for every reply `r`, the outcome handed to the
-    caller is a success exactly when `r` has no `error` member. -/
-theorem C07_outcome_ok_iff (r : Reply) : (∃ v, replyRes r = .ok v) ↔ r.error = none := by
+/-- **C07 (outcome, success)**: for every reply `r` and every reply type
+    (typed decoder `dec`), the outcome handed to the caller is a success only
+    when `r` has no `error` member; and when it has none, it is a success
+    exactly when the parameters decode into the reply type — for the untyped
+    client (`MReply = Value`, `decValue`) that is always. -/
+theorem C07_outcome_ok_iff (dec : Decoder) (r : Reply) :
+    ((∃ v, replyRes dec r = .ok v) → r.error = none) ∧
+    (r.error = none → ((∃ v, replyRes dec r = .ok v) ↔ (dec (r.parameters.getD (.obj []))).isSome)) ∧
+    ((∃ v, replyRes decValue r = .ok v) ↔ r.error = none) := by
   unfold replyRes
   cases he : r.error with
-  | none => cases hp : r.parameters <;> simp
+  | none =>
+    refine ⟨fun _ => rfl, fun _ => ?_, ?_⟩
+    · cases hd : dec (r.parameters.getD (.obj [])) <;> simp
+    · simp [decValue]
   | some e => simp
 
-/-- **C07 (outcome, error)**: … and otherwise it is the error `kindOf r`. -/
-theorem C07_outcome_err (r : Reply) (h : r.error ≠ none) : replyRes r = .err (kindOf r) := by
+/-- **C07 (outcome, error)**: … and a reply with an `error` member is the error `kindOf r`,
+    whatever the reply type. -/
+theorem C07_outcome_err (dec : Decoder) (r : Reply) (h : r.error ≠ none) : replyRes dec r = .err (kindOf r) := by
   unfold replyRes
   cases he : r.error with
   | none => exact absurd he h
   | some e => simp
 
-/-- a successful reply delivers its parameters (an absent member reads as `{}`) -/
-theorem C07_outcome_value (r : Reply) (h : r.error = none) :
-    replyRes r = .ok (r.parameters.getD (.obj [])) := by
+/-- a successful reply delivers its parameters (an absent member reads as `{}`), decoded -/
+theorem C07_outcome_value (dec : Decoder) (r : Reply) (v : Json) (h : r.error = none)
+    (hd : dec (r.parameters.getD (.obj [])) = some v) :
+    replyRes dec r = .ok v ∧ replyRes decValue r = .ok (r.parameters.getD (.obj [])) := by
   unfold replyRes
-  cases hp : r.parameters <;> simp [h]
+  simp [h, hd, decValue]
 
-/-- **C07 (outcome of `call`)**: for every peer, every idle connection, every
-    fresh call object and every wire on which the write succeeds: if the next
-    frame that comes back is the reply `r` (whatever `r` is), `call()` returns
-    exactly the outcome of `r`. -/
-theorem C07_outcome (p : Peer) (s : CS) (meth : String) (params : Json) (r : Reply) (q : List Msg)
+/-- **C07 (outcome of `call`)**: for every peer, every reply type, every idle
+    connection, every fresh call object and every wire on which the write
+    succeeds: if the next frame that comes back is the reply `r` (whatever `r`
+    is), `call()` returns exactly the outcome of `r`. -/
+theorem C07_outcome (p : Peer) (dec : Decoder) (s : CS) (meth : String) (params : Json) (r : Reply) (q : List Msg)
     (hm : s.call.method = some meth) (hq : s.call.request = some params)
     (hi : s.conn.idle = true) (hw : s.wire.canWrite = true)
     (hnext : (s.wire.accept p (mkRequest meth params false false false)).queue = .reply r :: q) :
-    ∃ s', call p s = some (replyRes r, s') ∧
-      ((∃ v, replyRes r = .ok v) ↔ r.error = none) ∧
-      (r.error ≠ none → replyRes r = .err (kindOf r)) := by
+    ∃ s', call p dec s = some (replyRes dec r, s') ∧
+      ((∃ v, replyRes dec r = .ok v) → r.error = none) ∧
+      (r.error ≠ none → replyRes dec r = .err (kindOf r)) := by
   unfold call
   rw [send_ok p false false false s meth params hm hq hi hw]
   simp only [Bool.false_eq_true, if_false]
-  rw [recv_reply _ r q rfl rfl hnext]
-  exact ⟨_, rfl, C07_outcome_ok_iff r, C07_outcome_err r⟩
+  rw [recv_reply dec _ r q rfl rfl hnext]
+  exact ⟨_, rfl, (C07_outcome_ok_iff dec r).1, C07_outcome_err dec r⟩
 
 /-- the four standard errors carry the named member of their parameters … -/
 theorem C07_kind_standard (c : Option Bool) (ps : Option Json) :
@@ -113,9 +125,9 @@ theorem C07_busy_writes_nothing (p : Peer) (ow mo up : Bool) (s : CS) (h : s.con
   simp [hm, hq, h']
 
 /-- the same for the public operations -/
-theorem C07_busy_operations (p : Peer) (s : CS) (h : s.conn.idle = false) (hf : s.call.fresh) :
-    (∃ s', call p s = some (.err .connectionBusy, s') ∧ s'.wire = s.wire) ∧
-    (∃ s', upgrade p s = some (.err .connectionBusy, s') ∧ s'.wire = s.wire) ∧
+theorem C07_busy_operations (p : Peer) (dec : Decoder) (s : CS) (h : s.conn.idle = false) (hf : s.call.fresh) :
+    (∃ s', call p dec s = some (.err .connectionBusy, s') ∧ s'.wire = s.wire) ∧
+    (∃ s', upgrade p dec s = some (.err .connectionBusy, s') ∧ s'.wire = s.wire) ∧
     (∃ s', oneway p s = (.err .connectionBusy, s') ∧ s'.wire = s.wire) ∧
     (∃ s', more p s = (.err .connectionBusy, s') ∧ s'.wire = s.wire) := by
   have key : ∀ (ow mo up : Bool) (s : CS), s.conn.idle = false → s.call.fresh →
@@ -151,36 +163,86 @@ theorem C07_send_once (p : Peer) (ow mo up ow' mo' up' : Bool) (s : CS) :
   rw [send_spent p ow' mo' up' s2 (Or.inl h)]
   simp
 
-/-- `recv` never gives method/request back -/
-theorem recv_keeps_spent (s : CS) (r : Res) (s' : CS) (h : recv s = some (r, s'))
-    (hm : s.call.method = none) : s'.call.method = none := by
-  unfold recv at h
-  split at h
-  · simp at h; rw [← h.2]; exact hm
-  · split at h
+/-- what reaches the peer: a send appends at most one request to the log — exactly
+    the call object's method and parameters with the flag of the operation — and a
+    receive never writes -/
+theorem C07_send_writes_at_most_one (p : Peer) (dec : Decoder) (ow mo up : Bool) (s : CS) :
+    ((send p ow mo up s).2.wire.log = s.wire.log ∨
+     ∃ meth params, s.call.method = some meth ∧ s.call.request = some params ∧ (send p ow mo up s).1 = none ∧
+       (send p ow mo up s).2.wire.log = s.wire.log ++ [mkRequest meth params ow mo up]) ∧
+    (∀ r s', recv dec s = some (r, s') → s'.wire.log = s.wire.log) := by
+  constructor
+  · by_cases hf : s.call.method = none ∨ s.call.request = none
+    · left; rw [send_spent p ow mo up s hf]
+    · have hm : ∃ meth, s.call.method = some meth := by
+        cases h : s.call.method with
+        | none => exact absurd (Or.inl h) hf
+        | some m => exact ⟨m, rfl⟩
+      have hq : ∃ params, s.call.request = some params := by
+        cases h : s.call.request with
+        | none => exact absurd (Or.inr h) hf
+        | some m => exact ⟨m, rfl⟩
+      obtain ⟨meth, hm⟩ := hm
+      obtain ⟨params, hq⟩ := hq
+      cases hi : s.conn.idle with
+      | false => left; rw [(send_not_idle p ow mo up s hi).1]
+      | true =>
+        cases hw : s.wire.canWrite with
+        | true =>
+          right
+          refine ⟨meth, params, hm, hq, ?_, ?_⟩ <;> rw [send_ok p ow mo up s meth params hm hq hi hw]
+          simp [Wire.accept]
+        | false => left; rw [send_wfail p ow mo up s meth params hm hq hi hw]
+  · intro r s' h
+    unfold recv at h
+    split at h
+    · simp at h; rw [← h.2]
     · split at h
-      · simp at h; rw [← h.2]; exact hm
-      · simp at h
-    · simp at h; rw [← h.2]; exact hm
-    · simp at h; rw [← h.2]; exact hm
-    · split at h <;> (simp at h; rw [← h.2]; exact hm)
+      · split at h
+        · simp at h; rw [← h.2]
+        · simp at h
+      · simp at h; rw [← h.2]
+      · simp at h; rw [← h.2]
+      · split at h <;> (simp at h; rw [← h.2])
 
 /-- **C07 (reusable)**: when a call that owns the stream reads a reply that
-    is final (`continues` absent or false — success or error alike), the stream
-    is back in the connection, so the next fresh call is sent (not refused). -/
-theorem C07_reusable_after_final (p : Peer) (s : CS) (r : Reply) (q : List Msg)
+    is final (`continues` absent or false) — a result, an error, *or a payload
+    that does not even decode into the caller's reply type* (any `dec`) — the
+    stream is back in the connection, `continues` is off (so the iteration
+    ends), and the next fresh call is sent, not refused.  The hand-back does
+    not depend on what the reply carries. -/
+theorem C07_reusable_after_final (p : Peer) (dec : Decoder) (s : CS) (r : Reply) (q : List Msg)
     (hr : s.call.reader = true) (hw : s.call.writer = true)
     (hq : s.wire.queue = .reply r :: q) (hfin : r.continues ≠ some true) :
-    ∃ s', recv s = some (replyRes r, s') ∧ s'.conn.idle = true ∧ s'.call.reader = false ∧ s'.call.writer = false ∧
+    ∃ s', recv dec s = some (replyRes dec r, s') ∧ s'.conn.idle = true ∧ s'.call.reader = false ∧ s'.call.writer = false ∧
       s'.call.continues = false ∧ s'.wire.queue = q ∧
+      next dec s' = some (.none, s') ∧
+      (∀ dec' : Decoder, ∃ res, recv dec' s = some (res, s')) ∧
       ∀ (m : MCall) (ow mo up : Bool), m.fresh → s'.wire.canWrite = true →
         (send p ow mo up { s' with call := m }).1 = none := by
-  rw [recv_reply s r q hr hw hq]
+  rw [recv_reply dec s r q hr hw hq]
   simp only [hfin, if_false]
-  refine ⟨_, rfl, rfl, rfl, rfl, rfl, rfl, ?_⟩
-  rintro m ow mo up ⟨meth, params, hm, hq'⟩ hcw
-  have := send_ok p ow mo up ⟨⟨true, true⟩, m, { s.wire with queue := q }⟩ meth params hm hq' rfl hcw
-  exact congrArg Prod.fst this
+  refine ⟨_, rfl, rfl, rfl, rfl, rfl, rfl, rfl, ?_, ?_⟩
+  · intro dec'
+    rw [recv_reply dec' s r q hr hw hq]
+    simp only [hfin, if_false]
+    exact ⟨_, rfl⟩
+  · rintro m ow mo up ⟨meth, params, hm, hq'⟩ hcw
+    have := send_ok p ow mo up ⟨⟨true, true⟩, m, { s.wire with queue := q }⟩ meth params hm hq' rfl hcw
+    exact congrArg Prod.fst this
+
+/-- the state after *any* reply is independent of the reply type and of
+    whether the payload decodes: `continues` and the slots are settled from
+    the envelope alone -/
+theorem C07_state_independent_of_payload (dec dec' : Decoder) (s : CS) (r : Reply) (q : List Msg)
+    (hq : s.wire.queue = .reply r :: q) :
+    (recv dec s).map (·.2) = (recv dec' s).map (·.2) := by
+  unfold recv
+  split
+  · rfl
+  · rw [hq]
+    simp only
+    split <;> rfl
 
 /-! ### C04, client half -/
 
@@ -240,6 +302,165 @@ theorem C04_client_oneway_never_reads (p : Peer) (s : CS) :
   unfold oneway
   split <;> (rename_i e; rw [e] at key; exact key)
 
+/-! ### exclusivity under all interleavings -/
+
+/-- **C07 (exclusive)**: for every peer that obeys the protocol (nothing comes
+    back for a oneway request; the final reply to a request is the last thing
+    sent for it), every number of threads, every operation list per thread,
+    every table of call objects (objects may even be shared between threads)
+    and **every schedule** — i.e. every interleaving of the threads' atomic
+    steps `send` and `read one frame + restore`:
+
+    * at most one call object holds the reader, and none while it is in the connection;
+    * every frame read was read through the call object whose request it answers
+      (`deliv` records (reader, addressee) of each frame consumed; frames are tagged
+      with the object whose `send` made the peer produce them).
+
+    Proved as an inductive invariant of `stepThread` (Lemmas/ClientThreads.lean). -/
+theorem C07_exclusive (p : Peer) (dec : Decoder) (hp : Obeys p) (g0 : GState) (h0 : Inv g0) (sched : List Nat) :
+    let g := runSched p dec g0 sched
+    (∀ i j, holds g.objs i → holds g.objs j → i = j) ∧
+    (g.conn.reader = true → ∀ i, ¬ holds g.objs i) ∧
+    (∀ d ∈ g.deliv, d.1 = d.2) ∧
+    g.qown.length = g.wire.queue.length := by
+  have h := inv_runSched p dec hp sched g0 h0
+  exact ⟨h.one, fun hc => (h.idle hc).2, h.deliv, h.tags⟩
+
+/-- the same from the initial state of any program: fresh call objects on an idle connection -/
+theorem C07_exclusive_from_start (p : Peer) (dec : Decoder) (hp : Obeys p) (calls : List (String × Json))
+    (progs : List (List Op)) (w : Wire) (hq : w.queue = []) (sched : List Nat) :
+    let g := runSched p dec { wire := w, objs := calls.map fun c => MCall.new c.1 c.2, progs := progs } sched
+    (∀ i j, holds g.objs i → holds g.objs j → i = j) ∧ (∀ d ∈ g.deliv, d.1 = d.2) := by
+  have h0 : Inv { wire := w, objs := calls.map fun c => MCall.new c.1 c.2, progs := progs } := by
+    apply inv_init {} w _ progs hq
+    intro m hm
+    simp at hm
+    obtain ⟨a, b, _, rfl⟩ := hm
+    rfl
+  have := C07_exclusive p dec hp _ h0 sched
+  exact ⟨this.1, this.2.2.1⟩
+
+/-- **C07 (busy, across threads)**: in every state reachable under the
+    invariant in which some call object owns the stream (a `call` waiting for
+    its reply or a `more` iteration in progress — started by whichever thread),
+    the next sending operation of *any* thread on a fresh call object returns
+    `ConnectionBusy` at once, and wire and connection are exactly as before. -/
+theorem C07_busy_while_outstanding (p : Peer) (dec : Decoder) (g : GState) (t i j : Nat) (m : MCall) (op : Op) (rest : List Op)
+    (hinv : Inv g) (hj : holds g.objs j)
+    (hprog : g.progs[t]? = some (op :: rest))
+    (hop : op = .call i ∨ op = .upgrade i ∨ op = .oneway i ∨ op = .more i)
+    (hm : g.objs[i]? = some m) (hfresh : m.fresh) :
+    ∃ g', stepThread p dec g t = some g' ∧ g'.wire = g.wire ∧ g'.conn = g.conn ∧
+      g'.trace = g.trace ++ [(t, .err .connectionBusy)] ∧ g'.progs = g.progs.set t rest := by
+  have hcr : g.conn.reader = false := by
+    cases hc : g.conn.reader with
+    | false => rfl
+    | true => exact absurd hj ((hinv.idle hc).2 j)
+  have hidle : g.conn.idle = false := by simp [Conn.idle, hcr]
+  have hobj : g.objs[op.obj]? = some m := by
+    rcases hop with rfl | rfl | rfl | rfl <;> exact hm
+  unfold stepThread
+  rw [hprog]
+  simp only [hobj]
+  rcases hop with rfl | rfl | rfl | rfl
+  · have := doSend_busy p g t i m false false false (.recv i :: rest) false rest hidle hfresh
+    exact ⟨_, rfl, this.1, this.2.1, this.2.2.1, this.2.2.2.1⟩
+  · have := doSend_busy p g t i m false false true (.recv i :: rest) false rest hidle hfresh
+    exact ⟨_, rfl, this.1, this.2.1, this.2.2.1, this.2.2.2.1⟩
+  · have := doSend_busy p g t i m true false false rest true rest hidle hfresh
+    exact ⟨_, rfl, this.1, this.2.1, this.2.2.1, this.2.2.2.1⟩
+  · have := doSend_busy p g t i { m with continues := true } false true false rest true rest hidle hfresh
+    exact ⟨_, rfl, this.1, this.2.1, this.2.2.1, this.2.2.2.1⟩
+
+/-- `call()` of the interleaving model (a `send` step, later a `recv` step of the
+    same thread) is `Client.call` when no other step intervenes: the theorems
+    about `Client.call` (`C07_outcome`) and about steps (`C07_exclusive`) speak
+    about the same operation. -/
+theorem C07_call_is_send_then_recv (p : Peer) (dec : Decoder) (g : GState) (t i : Nat) (m : MCall) (rest : List Op)
+    (hprog : g.progs[t]? = some (.call i :: rest)) (hm : g.objs[i]? = some m) :
+    ∃ g1, stepThread p dec g t = some g1 ∧
+      ((∃ e s1, send p false false false (g.cs m) = (some e, s1) ∧
+          call p dec (g.cs m) = some (.err e, s1) ∧ g1.trace = g.trace ++ [(t, .err e)] ∧
+          g1.conn = s1.conn ∧ g1.wire = s1.wire ∧ g1.objs = g.objs.set i s1.call ∧ g1.progs = g.progs.set t rest) ∨
+       (∃ s1, send p false false false (g.cs m) = (none, s1) ∧ g1.trace = g.trace ∧
+          (stepThread p dec g1 t).map (fun g2 => (g2.trace, g2.conn, g2.wire, g2.objs, g2.progs)) =
+            (call p dec (g.cs m)).map (fun rs => (g.trace ++ [(t, rs.1)], rs.2.conn, rs.2.wire,
+                                                   g.objs.set i rs.2.call, g.progs.set t rest)))) :=
+  call_two_steps p dec g t i m rest hprog hm
+
+/-- the ghost bookkeeping is only bookkeeping: erasing it commutes with every step -/
+theorem C07_ghost_erasure (p : Peer) (dec : Decoder) (g : GState) (t : Nat) :
+    (stepThread p dec g t).map GState.erase = (stepThread p dec g.erase t).map GState.erase := by
+  have hs : ∀ (g : GState) (t i : Nat) (m : MCall) (ow mo up : Bool) (a : List Op) (b : Bool) (c : List Op),
+      (g.doSend p t i m ow mo up a b c).erase = (g.erase.doSend p t i m ow mo up a b c).erase := by
+    intro g t i m ow mo up a b c
+    unfold GState.doSend
+    have : g.erase.cs m = g.cs m := rfl
+    rw [this]
+    rcases send p ow mo up (g.cs m) with ⟨r, s'⟩
+    cases r with
+    | none => cases b <;> rfl
+    | some e => rfl
+  have hr : ∀ (g : GState) (t i : Nat) (m : MCall) (c : List Op),
+      (g.doRecv dec t i m c).map GState.erase = (g.erase.doRecv dec t i m c).map GState.erase := by
+    intro g t i m c
+    unfold GState.doRecv
+    have : g.erase.cs m = g.cs m := rfl
+    rw [this]
+    cases recv dec (g.cs m) with
+    | none => rfl
+    | some rs =>
+      obtain ⟨r, s'⟩ := rs
+      simp only [Option.map]
+      congr 1
+      have l : ((((g.put i s').tagRecv g.wire.queue.length i).setProg t c).done t r).erase =
+          ((((g.put i s').tagRecv g.wire.queue.length i).erase).setProg t c).done t r := rfl
+      have r' : ((((g.erase.put i s').tagRecv g.erase.wire.queue.length i).setProg t c).done t r).erase =
+          ((((g.erase.put i s').tagRecv g.erase.wire.queue.length i).erase).setProg t c).done t r := rfl
+      rw [l, r', erase_tagRecv, erase_tagRecv]
+      rfl
+  unfold stepThread
+  have e1 : g.erase.progs = g.progs := rfl
+  have e2 : g.erase.objs = g.objs := rfl
+  rw [e1, e2]
+  cases hpg : g.progs[t]? with
+  | none => rfl
+  | some prog =>
+    cases prog with
+    | nil => rfl
+    | cons op rest =>
+      simp only
+      cases ho : g.objs[op.obj]? with
+      | none => rfl
+      | some m =>
+        cases op with
+        | call i => simp only [Option.map]; exact congrArg some (hs g t i m _ _ _ _ _ _)
+        | upgrade i => simp only [Option.map]; exact congrArg some (hs g t i m _ _ _ _ _ _)
+        | oneway i => simp only [Option.map]; exact congrArg some (hs g t i m _ _ _ _ _ _)
+        | more i => simp only [Option.map]; exact congrArg some (hs g t i _ _ _ _ _ _ _)
+        | next i =>
+          simp only
+          split
+          · rfl
+          · exact hr g t i m rest
+        | recv i => exact hr g t i m rest
+
+/-- non-vacuity of `C07_exclusive`: two threads race for the connection; the
+    loser gets `ConnectionBusy`, the winner its own reply -/
+example :
+    (runSched politePeer decValue
+      { objs := [MCall.new "a.A" .null, MCall.new "b.B" .null], progs := [[.call 0], [.call 1]] }
+      [0, 1, 0]).trace = [(1, .err .connectionBusy), (0, .ok (.obj []))] := by decide
+
+/-- the hypothesis is needed: against a peer that answers a oneway request the
+    next call is handed the reply meant for the oneway one (this is the client
+    view of property C04, which holds for the service of this repository) -/
+theorem C07_exclusive_needs_obeys :
+    let rude : Peer := fun _ _ => ([.reply {}], false)
+    (runSched rude decValue
+      { objs := [MCall.new "a.A" .null, MCall.new "b.B" .null], progs := [[.oneway 0, .call 1]] }
+      [0, 0, 0]).deliv = [(1, 0)] := by decide
+
 /-! ### C05, client half -/
 
 /-- **C05 (client iteration)**: for every reply stream `r₁ … r_k` (each
@@ -250,7 +471,7 @@ theorem C04_client_oneway_never_reads (p : Peer) (s : CS) :
     stays busy; the `k+1`-th yields the outcome of `f` and puts the stream back
     (both slots present, nothing left under way); every further `next()` yields
     `None` and changes nothing; and a fresh call is then sent, not refused. -/
-theorem C05_iteration (p : Peer) (s : CS) (meth : String) (params : Json) (rs : List Reply) (f : Reply)
+theorem C05_iteration (p : Peer) (dec : Decoder) (s : CS) (meth : String) (params : Json) (rs : List Reply) (f : Reply)
     (hm : s.call.method = some meth) (hq : s.call.request = some params)
     (hi : s.conn.idle = true) (hw : s.wire.canWrite = true)
     (hempty : s.wire.queue = []) (hopen : s.wire.closed = false)
@@ -259,10 +480,10 @@ theorem C05_iteration (p : Peer) (s : CS) (meth : String) (params : Json) (rs : 
     ∃ s0 sk s1,
       more p s = (.unit, s0) ∧ s0.conn.idle = false ∧
       s0.wire.log = s.wire.log ++ [mkRequest meth params false true false] ∧
-      nexts rs.length s0 = some (rs.map replyRes, sk) ∧ sk.conn.idle = false ∧
-      nexts (rs.length + 1) s0 = some (rs.map replyRes ++ [replyRes f], s1) ∧
+      nexts dec rs.length s0 = some (rs.map (replyRes dec), sk) ∧ sk.conn.idle = false ∧
+      nexts dec (rs.length + 1) s0 = some (rs.map (replyRes dec) ++ [replyRes dec f], s1) ∧
       s1.conn = { reader := true, writer := true } ∧ s1.wire.queue = [] ∧ s1.wire.log = s0.wire.log ∧
-      (∀ n, nexts n s1 = some (List.replicate n .none, s1)) ∧
+      (∀ n, nexts dec n s1 = some (List.replicate n .none, s1)) ∧
       (∀ (m : MCall) (ow mo up : Bool), m.fresh → s1.wire.canWrite = true →
         (send p ow mo up { s1 with call := m }).1 = none) := by
   have hsend := send_ok p false true false { s with call := { s.call with continues := true } } meth params hm hq hi hw
@@ -275,9 +496,9 @@ theorem C05_iteration (p : Peer) (s : CS) (meth : String) (params : Json) (rs : 
       call := { ({ s.call with continues := true } : MCall).spent with reader := true, writer := true },
       wire := s.wire.accept p (mkRequest meth params false true false) }
   have hmore : more p s = (.unit, s0) := by simp only [more]; rw [hsend]
-  have h1 := nexts_continues rs [.reply f] s0 rfl rfl rfl hqueue hall
-  have h2 := nexts_stream rs f [] s0 rfl rfl rfl hqueue hall hf
-  refine ⟨s0, _, _, hmore, rfl, by simp [s0, Wire.accept], h1, rfl, h2, rfl, rfl, rfl, nexts_ended _ rfl, ?_⟩
+  have h1 := nexts_continues dec rs [.reply f] s0 rfl rfl rfl hqueue hall
+  have h2 := nexts_stream dec rs f [] s0 rfl rfl rfl hqueue hall hf
+  refine ⟨s0, _, _, hmore, rfl, by simp [s0, Wire.accept], h1, rfl, h2, rfl, rfl, rfl, nexts_ended dec _ rfl, ?_⟩
   rintro m ow mo up ⟨meth', params', hm', hq'⟩ hcw
   have := send_ok p ow mo up ⟨⟨true, true⟩, m, { s0.wire with queue := [] }⟩ meth' params' hm' hq' rfl hcw
   exact congrArg Prod.fst this
@@ -290,8 +511,22 @@ example :
                                  .reply { error := some "org.example.Done" }], false)
     let s : CS := { conn := {}, call := MCall.new "org.example.Stream" .null, wire := {} }
     ∃ s0, more p s = (.unit, s0) ∧
-      (nexts 4 s0).map (·.1) = some [.ok (.int 1), .ok (.int 2),
+      (nexts decValue 4 s0).map (·.1) = some [.ok (.int 1), .ok (.int 2),
         .err (.errorReply { error := some "org.example.Done" }), .none] := by
+  exact ⟨_, rfl, by decide⟩
+
+/-- non-vacuity of the typed clauses: a reply type that wants an integer
+    member `i`; the final reply of the stream carries `{"i":"done"}`.  The
+    iterator yields the decode error for it, then ends, and the connection is
+    free again. -/
+example :
+    let dec : Decoder := fun j => match j.get? "i" with | some (.int _) => some j | _ => none
+    let p : Peer := fun _ _ => ([.reply { continues := some true, parameters := some (.obj [("i", .int 1)]) },
+                                 .reply { parameters := some (.obj [("i", .str "done")]) }], false)
+    let s : CS := { conn := {}, call := MCall.new "org.example.Stream" .null, wire := {} }
+    ∃ s0, more p s = (.unit, s0) ∧
+      (nexts dec 3 s0).map (fun x => (x.1, x.2.conn)) =
+        some ([.ok (.obj [("i", .int 1)]), .err .badJson, .none], { reader := true, writer := true }) := by
   exact ⟨_, rfl, by decide⟩
 
 end VV
